@@ -120,8 +120,8 @@ PROPS = {
         level_note="cfitsio is uninstrumented: a wild write inside it is visible only if it crashes. Evaluation of loaded tables is skipped above 24 dimensions (the derivative bitmask is an int). Sampling, not absence.",
         technique="structure-aware fuzzing (rapidcheck fork-isolated twin + libFuzzer) with an in-target semantic oracle",
         engine="rapidcheck+libFuzzer",
-        units=[U("c07_reader", "c07_reader.cpp", quick=6000, thorough=400000, names=["reader"]),
-               U("c07_reader_fuzz", "c07_reader.cpp", variant="fuzz", kind="fuzz", flags=["-DVF_FUZZ"], quick=160000, thorough=12000000, names=["reader_fuzz"], max_len=24000)],
+        units=[U("c07_reader", "c07_reader.cpp", quick=6000, thorough=300000, names=["reader"]),
+               U("c07_reader_fuzz", "c07_reader.cpp", variant="fuzz", kind="fuzz", flags=["-DVF_FUZZ"], quick=160000, thorough=9000000, names=["reader_fuzz"], max_len=24000)],
         rule="a case = base file (generated 1..4-d spec, shipped file, garbage, non-spline FITS) + 0..3 structured mutations + 0..4 byte-level mutations, read through memory "
              "(7/8), disk (1/16) or the C interface (1/16). Non-trivial: at least one mutation and the input got past cfitsio's open into the spline parsing (recognised by "
              "the exception text or success); distinct = hash of the mutation list.",
@@ -134,8 +134,8 @@ PROPS = {
         level_note="Reads of uninitialised memory are not visible to ASan (MSan is unusable here); C01-C03 cover that through stack scribbling. System libraries are uninstrumented.",
         technique="fuzzing (libFuzzer, structure-aware) plus fork-isolated property-based testing (rapidcheck) under ASan/UBSan",
         engine="rapidcheck+libFuzzer",
-        units=[U("c05_memsafe", "c05_memsafe.cpp", quick=5000, thorough=160000, names=["memsafe"]),
-               U("c05_memsafe_fuzz", "c05_memsafe.cpp", variant="fuzz", kind="fuzz", flags=["-DVF_FUZZ"], quick=100000, thorough=4000000, names=["memsafe_fuzz"], max_len=2048)],
+        units=[U("c05_memsafe", "c05_memsafe.cpp", quick=5000, thorough=80000, names=["memsafe"]),
+               U("c05_memsafe_fuzz", "c05_memsafe.cpp", variant="fuzz", kind="fuzz", flags=["-DVF_FUZZ"], quick=100000, thorough=2500000, names=["memsafe_fuzz"], max_len=2048)],
         rule="a case = table (spec generator of C01 with all producers) + 6 coordinate vectors whose entries are drawn from {raw 64-bit pattern, NaN with payload, +-inf, denormal, "
              "knot, knot neighbour, beyond the range, inside palette}. Non-trivial: the lookup succeeded and at least one coordinate is not a plain interior point (margin, knot, "
              "neighbour or non-finite: NaN passes the range test); distinct = hash(spec, point).",
@@ -147,7 +147,7 @@ PROPS = {
         level_text="Per generated table the stdio operation trace of a clean write is recorded by an in-process interposer (fopen/fwrite/fseeko/fflush/fclose/ftruncate/remove as cfitsio's disk driver calls them). Crash points: the trace is replayed into a fresh file and the disk reader is run after EVERY operation and at byte granularity inside every write (FITS-block and stdio-chunk boundaries +-1, drawn offsets): the file must be rejected or load equal. Fault sequences: the write is repeated failing exactly the k-th operation for every k (ENOSPC/EIO/EFBIG/EDQUOT, zero or short writes, once or persistently) and under RLIMIT_FSIZE in a forked child (failure surfaces at flush/close): success may be reported only if the file reads back equal, and whatever is left must be rejected or load equal; every open is matched by exactly one close. Enumeration is exhaustive per table at operation granularity; tables are generated (1..5 dims, 1..300 blocks, 0..20 aux keys, C++ and C writers). A second sub-property injects the faults one level lower: the write is done by a helper process under strace's syscall fault injection and the N-th write(2) fails (ENOSPC/EIO/EDQUOT/EFBIG, once or from then on) for every N, which reaches the write(2) calls that stdio issues on its own when fseek or fclose drains its buffer; same oracle. It is skipped with a note when strace cannot trace in the environment.",
         level_note="Any byte prefix of the write stream in issue order is a superset of the states a real crash can leave (stdio flushes its single buffer sequentially and before any seek). The Python binding calls the same write_fits and is not built in this image. Built without sanitizers because the executable itself defines the stdio symbols.",
         technique="fault injection and crash-point enumeration driven by property-based table generation (rapidcheck + stdio interposition + RLIMIT_FSIZE + strace syscall fault injection)",
-        units=[U("c08_write", "c08_write.cpp", variant="plain", extra_srcs=["c08_interpose.cpp"], quick=320, thorough=48000, names=["write_faults", "kernel_write_faults"], leaks=False, no_isolate_rerun=True)],
+        units=[U("c08_write", "c08_write.cpp", variant="plain", extra_srcs=["c08_interpose.cpp"], quick=320, thorough=32000, names=["write_faults", "kernel_write_faults"], leaks=False, no_isolate_rerun=True)],
         rule="a case = one table; evaluations counts tables, classes count the crash cuts and injected faults. Non-trivial: a crash cut that leaves a non-empty proper prefix of the "
              "file, an injected fault that was actually reached, or a size limit below the file size; distinct = hash(table, kind, operation index / byte offset / limit).",
         essential={"write_faults": {"cut:operation_boundary": 10.0, "cut:byte_granularity": 10.0, "fault:write": 3.0, "fault:close": 0.5, "fault:flush": 0.5, "fault:open": 0.5,
@@ -162,8 +162,8 @@ PROPS = {
         units=[U("c12_sched", "c12_sched.cpp", variant="plain", extra_srcs=["vsched.cpp"], flags=["-I{REPO}/src/fitter"], exclude_objs=["cholesky_solve.o"],
                  repo_srcs=[("src/fitter/cholesky_solve.c", ["-Dpthread_create=vs_create", "-Dpthread_join=vs_join", "-Dpthread_mutex_lock=vs_lock", "-Dpthread_mutex_unlock=vs_unlock",
                                                             "-Dpthread_cond_wait=vs_cond_wait", "-Dpthread_cond_broadcast=vs_broadcast", "-Dpthread_exit=vs_exit", "-Dsched_setaffinity=vs_setaffinity"])],
-                 quick=64, thorough=160, names=["sched_dfs", "sched_pct"], leaks=False, no_isolate_rerun=True),
-               U("c12_tsan", "c12_tsan.cpp", variant="tsan", kind="tsan", flags=["-I{REPO}/src/fitter"], quick=192, thorough=4800, names=["tsan_fits", "tsan_nnls", "tsan_linesearch"], leaks=False, no_isolate_rerun=True, workers=dict(quick=4, thorough=8), timeout=dict(quick=420, thorough=3 * 3600))],
+                 quick=64, thorough=64, names=["sched_dfs", "sched_pct"], leaks=False, no_isolate_rerun=True),
+               U("c12_tsan", "c12_tsan.cpp", variant="tsan", kind="tsan", flags=["-I{REPO}/src/fitter"], quick=192, thorough=3200, names=["tsan_fits", "tsan_nnls", "tsan_linesearch"], leaks=False, no_isolate_rerun=True, workers=dict(quick=4, thorough=8), timeout=dict(quick=420, thorough=3 * 3600))],
         rule="a case = one line-search problem (1..6 unknowns, 0..6 infeasible components => 2..8 trial steps, 1..4 workers) and a set of schedules: sched_dfs enumerates the tree of "
              "choice sequences (budget 2500 leaves quick / 450000 thorough; 'exhaustive_tree' when the tree was finished), sched_pct runs 300 (3000) PCT/random schedules. evaluations "
              "counts problems; class 'schedules' counts executed schedules. Non-trivial schedule: a worker finished a computation while the coordinator was between unlock and wait, "
@@ -176,7 +176,7 @@ PROPS = {
         level_text="Generated fit problems (1..4 dims, orders 0..4, penalty orders 0..order, irregular knots and abscissae, dense and sparse data, weights over 2^+-5 with exact zeros, smoothing 0..1e6, scalar or per-dimension arguments, shuffled listing) are checked against an independent dense long-double assembly of the normal equations: the returned coefficients must satisfy A c = r componentwise to single precision (sound for any conditioning), agree with the reference minimiser when cond<1e4, and obey the metamorphic relations (spline data reproduced at zero smoothing; zero-weight entries and listing order irrelevant; scalar vs per-dimension arguments and the C wrapper bit-identical; tensor-product polynomials of degree below the penalty order in every dimension, sampled inside the fully supported range, reproduced at the data points for every smoothing strength with cond<1e9). Abscissae are listed ascending, descending or shuffled and may coincide with knots.",
         level_note="Well-posedness is by construction (several abscissae per knot interval) and verified: cases whose reference Cholesky fails or whose condition estimate exceeds 1e6 are discarded and counted. The penalty matrix of the reference is built from the textbook derivative-coefficient formula.",
         technique="property-based testing (rapidcheck) with a reference-model oracle (dense long-double normal equations) and metamorphic relations",
-        units=[U("c09_fit", "c09_fit.cpp", quick=1600, thorough=200000, names=["objective", "metamorphic", "polynomial"])],
+        units=[U("c09_fit", "c09_fit.cpp", quick=1600, thorough=600000, names=["objective", "metamorphic", "polynomial"])],
         rule="Non-trivial: ndim>=2, or smoothing>0, or sparse data, or non-unit weights; distinct = hash(orders, penalty orders, smoothing, knots, data, weights).",
         essential={"objective": {"smoothing>0": 0.3, "sparse": 0.1, "weights:varying": 0.2, "listing:shuffled": 0.2, "compared_with_reference_minimiser": 0.2, "scalar_vs_vector_and_C_compared": 0.2},
                    "polynomial": {"smoothing>0": 0.5, "polynomial:non_constant": 0.3, "smoothing>=1e3": 0.15}},
@@ -187,7 +187,7 @@ PROPS = {
         level_text="Every exported NNLS solver (block3 as used by fit, block, block_updown, Lawson-Hanson in normal-equation and least-squares mode) is run on generated symmetric positive-definite systems passed exactly as fit passes them (full storage, stype 0). Oracles: enumeration of all 2^n active sets in long double for n<=10; constructed optima (b := A x0 - g0 with complementary x0,g0>=0) with exactly-zero and tied components for any n up to 200 (sparse banded) and for dense systems of 40..300 unknowns with 1 or 2 worker threads and a quarter, half or seven eighths of the components positive - the regime in which modify_factor adds or deletes several rows of the Cholesky factor by row updates instead of refactorizing (a guarded hook counter reports whether that path was reached; an essential class); and the KKT conditions on the returned vector with tolerances tied to each solver's stated tolerance. Each solve runs in a forked child so exit(1), aborts and hangs are failing cases.",
         level_note="Tolerances: block3 n*eps*1e5, block/block_updown 1e-6 (their KKT_TOL, absolute), Lawson-Hanson 0 as passed; plus 64*n*eps*(|A||x|+|b|). OMP_NUM_THREADS=2 for block3's line search (C12 owns the schedule dimension).",
         technique="property-based testing (rapidcheck, fork-isolated) with an exhaustive-enumeration reference and constructed-optimum oracle",
-        units=[U("c11_nnls", "c11_nnls.cpp", quick=6000, thorough=1000000, names=["kkt_small", "kkt_large_sparse", "kkt_medium_dense"])],
+        units=[U("c11_nnls", "c11_nnls.cpp", quick=6000, thorough=90000, names=["kkt_small", "kkt_large_sparse", "kkt_medium_dense"])],
         rule="systems A = M'M (M random dense/sparse/banded with sqrt(delta) I rows, delta in 1e-6..1, column scaling 2^+-15 for the badly-scaled class); b random or constructed "
              "from a chosen optimum. Non-trivial: the minimiser has at least one zero and one positive component; distinct = hash(solver, A, b).",
         essential={"kkt_small": {"solver:block3": 0.1, "solver:block": 0.1, "solver:block_updown": 0.1, "solver:lawson_hanson_normal": 0.1, "solver:lawson_hanson_lsq": 0.1,
@@ -200,7 +200,7 @@ PROPS = {
         level_text="Generated monotonic fits (1..3 dims, orders 1..4, every choice of monotonic dimension, adversarial data shapes: decreasing, oscillating, noisy, step, constant; sparse; varying and zero weights; smoothing 0..1e6) must return coefficients that are non-decreasing along the monotonic dimension in every fibre (compared exactly in float) and a non-negative derivative along it in the fully supported region; when the data come from a spline with positive increasing coefficients (constraint inactive) the monotonic fit must reproduce the unconstrained solution to single precision. Each fit runs in a forked child under a watchdog. A third sub-property keeps non-zero smoothing (1e-3..3, in the monotonic and/or the other dimensions, penalty orders 0..order): when the unconstrained minimiser of the same penalised objective (dense long-double reference) is non-negative and increasing with a margin, the monotonic fit has to return it to single precision. The data are multiplied by 1e-12..1e4 in the first sub-property (the solver's tolerances are absolute).",
         level_note="Whether the constraint is active is decided from the independent long-double reference solution of C09. Thread schedules are C12's dimension (OMP_NUM_THREADS=2 here).",
         technique="property-based testing (rapidcheck, fork-isolated) with an invariant oracle and a reference-model oracle for the inactive case",
-        units=[U("c10_mono", "c10_mono.cpp", quick=900, thorough=120000, names=["monotone_any_data", "inactive_constraint", "inactive_constraint_smoothed"])],
+        units=[U("c10_mono", "c10_mono.cpp", quick=900, thorough=500000, names=["monotone_any_data", "inactive_constraint", "inactive_constraint_smoothed"])],
         rule="Non-trivial: the constraint is active (the unconstrained reference solution violates non-negativity or monotonicity), or the inactive-constraint sub-property; "
              "distinct = hash(monodim, orders, knots, data, weights).",
         essential={"monotone_any_data": {"constraint:active": 0.2, "monodim:interior": 0.03, "sparse": 0.1}, "inactive_constraint": {"constraint:inactive": 0.9},
@@ -244,7 +244,7 @@ PROPS = {
         level_text="Generated table files (independent writer; 1..6 dims, mixed orders 0..5, up to 1e5 coefficients, 0..50 auxiliary keys of all accepted lengths incl. maximal key+value) are loaded into splinetable<CheckedAlloc> from their path and optionally convolved exactly as declared to estimateMemory (2..8 kernel knots, any dimension). The allocator's ledger gives the peak number of bytes simultaneously requested, which must not exceed the estimate; the ledger must also balance (every block returned exactly once).",
         level_note="Only requests made through the table's allocator are counted, as the property states (convolve's temporaries use operator new). A fixed-size arena's own bookkeeping overhead is outside the estimate's scope.",
         technique="property-based testing (rapidcheck) with a byte-counting allocator as measurement oracle",
-        units=[U("c19_estimate", "c19_estimate.cpp", quick=2500, thorough=2000000, names=["estimate_bounds_peak"])],
+        units=[U("c19_estimate", "c19_estimate.cpp", quick=2500, thorough=90000, names=["estimate_bounds_peak"])],
         rule="Non-trivial: a convolution is requested, or >=10 auxiliary keys, or ndim>=3; distinct = hash(spec, aux count, kernel knots, dimension).",
         essential={"estimate_bounds_peak": {"convolution:yes": 0.4, "aux>=10": 0.2, "coeffs:>=1e4": 0.006}},
         assumptions=["sizeof(splinetable) is part of the estimate but not of the measured requests"],
